@@ -10,11 +10,17 @@
  *   reuse                                                                    esl_getopts_Reuse
  *   help grp=N indent=N width=N                                              esl_opt_DisplayHelp into a memory stream (opt rows may carry help=H|~ grp=N)
  *   spoofcmd                                                                 esl_opt_SpoofCmdline
+ *   defapp nargs=N w=H,H,...                                                 esl_getopts_CreateDefaultApp in a child process: returned / exit0 help / exit1 parse|nargs
  *   atof s=H                                                                 esl_str_IsReal(s), bit pattern of atof(s)
  * H = lowercase hex, "-" = empty string, "~" = NULL.
  */
 #include "hcommon.h"
 #include "esl_getopts.h"
+#include <unistd.h>
+#include <sys/wait.h>
+#if defined(__SANITIZE_ADDRESS__)
+#include <sanitizer/lsan_interface.h>
+#endif
 
 #define MAXOPT 64
 static ESL_OPTIONS  T[MAXOPT + 1];
@@ -150,6 +156,39 @@ static void h_op(void)
     char *v = field("s");
     if (!v) v = "";
     h_out("isreal=%d bits=%s", esl_str_IsReal(v) ? 1 : 0, h_dbits(atof(v)));
+    return;
+  }
+  if (!strcmp(op, "defapp")) {          /* esl_getopts_CreateDefaultApp calls exit(): run it in a child, report how it ended */
+    char **w; int n = split_commas(h_arg("w"), &w), i; char **argv = keep(malloc(sizeof(char *) * (n + 1)));
+    int nargs = (int) h_argi("nargs", -1); int pfd[2]; pid_t pid; int st = 0; char first[128]; size_t have = 0; ssize_t got; char tmp[512];
+    for (i = 0; i < n; i++) argv[i] = unhex_word(w[i]);
+    argv[n] = NULL;
+    if (nT == 0 || n == 0) { h_out("bad-op"); return; }
+    fflush(stdout); fflush(stderr);
+    if (pipe(pfd) != 0) { h_out("io-error"); return; }
+    pid = fork();
+    if (pid < 0) { h_out("io-error"); return; }
+    if (pid == 0) {
+      ESL_GETOPTS *go;
+      close(pfd[0]); dup2(pfd[1], 1); close(pfd[1]);
+#if defined(__SANITIZE_ADDRESS__)
+      __lsan_disable();                 /* the library exits without freeing the object: not this check's business */
+#endif
+      go = esl_getopts_CreateDefaultApp(T, nargs, n, argv, "test banner", "[-options] <args>");
+      printf("RETURNED argn=%d\n", esl_opt_ArgNumber(go));
+      fflush(stdout);
+      _exit(42);
+    }
+    close(pfd[1]);
+    while ((got = read(pfd[0], tmp, sizeof(tmp))) > 0)
+      for (i = 0; i < (int) got; i++) if (have < sizeof(first) - 1) first[have++] = tmp[i];
+    first[have] = 0;
+    close(pfd[0]);
+    waitpid(pid, &st, 0);
+    if (WIFEXITED(st) && WEXITSTATUS(st) == 42 && !strncmp(first, "RETURNED argn=", 14)) h_out("returned argn=%d", atoi(first + 14));
+    else if (WIFEXITED(st) && WEXITSTATUS(st) == 0) h_out("exit0 %s", strstr(first, "Usage:") || first[0] == '#' ? "help" : "other");
+    else if (WIFEXITED(st) && WEXITSTATUS(st) == 1) h_out("exit1 %s", !strncmp(first, "Failed to parse command line", 28) ? "parse" : !strncmp(first, "Incorrect number of command line arguments", 42) ? "nargs" : "other");
+    else h_out("fault defapp-child-%s-%d", WIFSIGNALED(st) ? "signal" : "exit", WIFSIGNALED(st) ? WTERMSIG(st) : WEXITSTATUS(st));
     return;
   }
   if (!strcmp(op, "create")) {
